@@ -367,8 +367,50 @@ func (b *Builder) constArray(elem types.Type) Term {
 // heapName is the name of the object heap for element type t:
 // (Array Int (Array Int sort)) – ref -> index -> value.
 func (b *Builder) heapName(t types.Type) string {
-	s := b.sortOf(t)
-	return "HS." + sanitize(s)
+	b.sortOf(t) // declare the sort
+	return "HS." + sanitize(typeKey(t))
+}
+
+// typeKey is a canonical name of a Go type: objects of types with different
+// keys live in different heaps (Go's type system keeps them apart, unsafe
+// conversions aside), so a write to a []byte can never be mistaken for a write
+// to a []chan error even though both are integers in SMT.
+func typeKey(t types.Type) string {
+	switch u := t.(type) {
+	case *types.Alias:
+		return typeKey(types.Unalias(u))
+	case *types.Basic:
+		if int(u.Kind()) < len(types.Typ) && types.Typ[u.Kind()] != nil {
+			return types.Typ[u.Kind()].Name()
+		}
+		return u.Name()
+	case *types.Pointer:
+		return "ptr." + typeKey(u.Elem())
+	case *types.Slice:
+		return "sl." + typeKey(u.Elem())
+	case *types.Array:
+		return fmt.Sprintf("arr%d.%s", u.Len(), typeKey(u.Elem()))
+	case *types.Map:
+		return "map." + typeKey(u.Key()) + "." + typeKey(u.Elem())
+	case *types.Chan:
+		return "chan." + typeKey(u.Elem())
+	case *types.Named:
+		return shortTypeName(u)
+	case *types.Interface:
+		if u.NumMethods() == 0 {
+			return "any"
+		}
+		return "iface." + u.String()
+	case *types.Signature:
+		return "func"
+	case *types.Struct:
+		var fs []string
+		for i := 0; i < u.NumFields(); i++ {
+			fs = append(fs, u.Field(i).Name()+":"+typeKey(u.Field(i).Type()))
+		}
+		return "struct." + strings.Join(fs, ".")
+	}
+	return t.String()
 }
 
 func (b *Builder) heapSort(t types.Type) string {
